@@ -1019,7 +1019,7 @@ def _size_term(ctx, L, node, env):
     if isinstance(node, ast.Lambda):
         body = node.body
         names = {a.arg for a in node.args.args} | {"this"}
-    ev = Ev(const_of=ctx.folder.const_of(mod) if mod is not None else None, this_names=names)
+    ev = Ev(const_of=L.const_of(mod) if mod is not None else None, this_names=names)
     t = ev.ev(body)
     for a in t.atoms():
         if not a.startswith("this."):
